@@ -964,7 +964,7 @@ namespace xsimd
         {
             const batch<double, A> low(_mm512_i32gather_pd(_mm512_castsi512_si256(index.data), src, sizeof(double)));
             const batch<double, A> high(_mm512_i32gather_pd(_mm256_castpd_si256(_mm512_extractf64x4_pd(_mm512_castsi512_pd(index.data), 1)), src, sizeof(double)));
-            return detail::merge_avx(_mm512_cvtpd_epi32(low.data), _mm512_cvtpd_epi32(high.data));
+            return detail::merge_avx(_mm512_cvttpd_epi32(low.data), _mm512_cvttpd_epi32(high.data));
         }
 
         // ge
